@@ -112,6 +112,16 @@ func vNondetArray(n int) []byte {
 func vNondetBytesC(max int) []byte   { return vNondetBytes(max) }
 func vNondetStringC(max int) string { return vNondetString(max) }
 
+// vHavocBytes: n bytes of arbitrary content that is not recorded in the witness
+// (natively: a recognisable dirty pattern)
+func vHavocBytes(n int) []byte {
+	b := make([]byte, n)
+	for i := range b {
+		b[i] = 0xAA
+	}
+	return b
+}
+
 func vChoice(n int) int { return int(vNext("choice").Val) }
 
 func vConcrete(x int, max int) int { return x }
